@@ -714,6 +714,8 @@ class Prover:
                     break
             if vals and not (e[2][0] <= self.f.nargs):
                 return min(vals), max(vals)
+        if e[0] == "k" and len(e) > 1 and e[1] in UNSIGNED:
+            lo = 0      # a const generic of an unsigned type
         if e[0] == "len" or (e[0] == "call" and e[1].endswith("::len")):
             lo = 0
         if e[0] == "cast":
@@ -774,6 +776,20 @@ class Prover:
         terms, c = goal
         if not terms:
             return c >= 0
+        if depth == 0:
+            # d != 0 together with d >= 0 (or -d >= 0) gives d - 1 >= 0 (resp. -d - 1 >= 0)
+            derived = []
+            for (ft, fc), rel, src in facts:
+                if rel != "!=0" or len(ft) < 2:
+                    continue
+                neg = ({a: -co for a, co in ft.items()}, -fc)
+                for (gt, gc), rel2, _ in facts:
+                    if rel2 == ">=0" and gt == ft and gc == fc:
+                        derived.append(((dict(ft), fc - 1), ">=0", src))
+                    elif rel2 == ">=0" and gt == neg[0] and gc == neg[1]:
+                        derived.append(((dict(neg[0]), neg[1] - 1), ">=0", src))
+            if derived:
+                facts = list(facts) + derived
         # constant bounds per atom from ranges and single-atom facts
         lo, hi = {}, {}
         for a in set(terms) | {x for fl, _, _ in facts for x in fl[0]}:
@@ -810,6 +826,8 @@ class Prover:
                 (a, co), = ft.items()
                 if fc % co == 0 and lo.get(a) is not None and lo[a] == -fc // co:
                     lo[a] += 1
+                if fc % co == 0 and hi.get(a) is not None and hi[a] == -fc // co:
+                    hi[a] -= 1
         if any(a in lo and a in hi and lo[a] > hi[a] for a in lo):
             return True       # contradictory facts: this path cannot be taken
         mn = c
@@ -937,14 +955,234 @@ class Prover:
                 if extra:
                     ok = self.prove(g, facts + extra, L) or self.prove_on_paths(b, g, facts + extra, L, goal_index=gi)
                     how = "storage invariant"
+            if not ok:
+                inv = self.prove_loop_invariant(b, gi)
+                if inv:
+                    ok = True
+                    how = "loop invariant: " + inv
             res.append((text, ok, show_lin(g) + " >= 0", how if ok else None))
         return {"goals": res, "facts": [show_lin(l) + " " + rel for l, rel, _ in facts]}
+
+    # ---- loop invariants --------------------------------------------------------------------------------
+    def _paths_to(self, p, cap=200):
+        """acyclic path sets D -> p for dominators D of p, farthest dominator first: yields lists of paths"""
+        f = self.f
+        inner = [body for h_, body in f.loops().items() if p in body]
+        body_ = min(inner, key=len) if inner else None
+        for D in reversed(f.dominators(p)):
+            if body_ is not None and D not in body_:
+                continue
+            region = self._between(D, p) | {D, p}
+            paths, cyclic = [], False
+            stack = [(D, [D])]
+            while stack and not cyclic:
+                x, path = stack.pop()
+                if x == p:
+                    paths.append(path)
+                    if len(paths) > cap:
+                        break
+                    continue
+                for tb, _ in f.succ(x):
+                    if tb not in region:
+                        continue
+                    if tb in path:
+                        cyclic = True
+                        break
+                    stack.append((tb, path + [tb]))
+            if not cyclic and paths and len(paths) <= cap:
+                yield paths
+
+    def facts_before(self, bd, L):
+        """facts valid on entry to block bd (before its statements run)"""
+        f = self.f
+        preds = f.pred(bd)
+        if len(preds) == 1:
+            p, val = preds[0]
+            fs = list(self.facts_at(p, L))
+            t = f.term(p)
+            if t["k"] == "switch":
+                fs += [(l_, r_, p) for l_, r_ in self.edge_facts(p, bd, val, L)]
+            else:
+                fs += [(l_, r_, p) for l_, r_ in self.passed_facts(p, L)]
+            return fs
+        idom = [x for x in f.dominators(bd) if x != bd]
+        return list(self.facts_at(idom[0], L)) if idom else []
+
+    def prove_loop_invariant(self, b, goal_index):
+        """The goal of site b mentions a local X that is reassigned in the loop around b, so no dominating condition bounds it.
+        Try to establish the goal by induction: find an inequality I over X and loop-invariant terms (the goal itself, or the goal
+        weakened by one) - optionally guarded by `P == v` for a bool local P tested on the way to b - such that
+          (entry)        I holds on every path into the loop (with X's value on that path), or the guard is false there;
+          (preservation) every assignment to X inside the loop re-establishes I from I and the conditions dominating it, every such
+                         assignment sits behind the guard, and P is only ever assigned the opposite constant inside the loop;
+          (use)          I and the conditions dominating b give the goal.
+        Returns a description of the invariant, or None."""
+        f, ev = self.f, self.ev
+        cands = [(h, body) for h, body in f.loops().items() if b in body]
+        if not cands:
+            return None
+        h, body = min(cands, key=lambda hb: len(hb[1]))
+        L = Lin(ev)
+        goals = self.site_goals(b, L)
+        if goal_index >= len(goals):
+            return None
+        g, text = goals[goal_index]
+
+        def unval(e):
+            while e and e[0] == "val":
+                e = e[2]
+            return e
+        carried = []
+        for k_, c_ in g[0].items():
+            e = unval(L.atoms.get(k_, ("?",)))
+            if e[0] == "sym" and len(e[2]) == 1 and any(d_[0] in body for d_ in f.defs(e[2][0])):
+                carried.append((k_, e[2][0], c_))
+        if len(carried) != 1 or abs(carried[0][2]) != 1:
+            return None
+        xk, lx, cx = carried[0]
+        for k_ in g[0]:
+            if k_ == xk:
+                continue
+            for r in roots(L.atoms.get(k_, ("?",))):
+                if any(d_[0] in body for d_ in f.defs(r)):
+                    return None
+        dom_facts = self.facts_at(b, L)
+        # guards: bool locals tested on the way to b inside the loop
+        guards = [None]
+        for s_ in f.dominators(b):
+            if s_ == b or s_ not in body or f.term(s_)["k"] != "switch" or f.term(s_).get("ty") != "bool":
+                continue
+            ce = unval(ev.operand(f.term(s_)["on"], (s_, "T")))
+            if ce[0] != "sym" or len(ce[2]) != 1 or f.local_ty(ce[2][0]) != "bool":
+                continue
+            for tgt, val in f.succ(s_):
+                if len(f.pred(tgt)) == 1 and (tgt == b or f.dominates(tgt, b)):
+                    truth = ([v for v, _ in f.term(s_)["targets"]] == [0]) if val == "otherwise" else bool(val)
+                    guards.append((ce[2][0], truth))
+
+        def subst(I, new_lin):
+            """I with X replaced by the linear form new_lin"""
+            t = {a: c_ for a, c_ in I[0].items() if a != xk}
+            for a, c_ in new_lin[0].items():
+                t[a] = t.get(a, 0) + cx * c_
+            return ({a: c_ for a, c_ in t.items() if c_}, I[1] + cx * new_lin[1])
+
+        def const_bool(e):
+            e = unval(e)
+            if e[0] == "c" and isinstance(e[1], (int, bool)):
+                return bool(e[1])
+            return None
+
+        entries = [p for p, _ in f.pred(h) if p not in body]
+        xdefs = [d_ for d_ in f.defs(lx) if d_[0] in body]
+        for kk in (0, 1):
+            I = (dict(g[0]), g[1] + kk)
+            for guard in guards:
+                # --- use
+                if not self.prove(g, dom_facts + [(I, ">=0", h)], L):
+                    continue
+                ok = True
+                # --- guard discipline
+                if guard is not None:
+                    lp, v = guard
+                    for d_ in f.defs(lp):
+                        if d_[0] not in body:
+                            continue
+                        cv = const_bool(ev.rvalue(f.stmts(d_[0])[d_[1]]["rv"], d_)) if d_[1] != "T" else None
+                        if cv is None or cv == v:
+                            ok = False
+                    for d_ in xdefs:
+                        behind = False
+                        for s_ in f.dominators(d_[0]):
+                            if s_ not in body or f.term(s_)["k"] != "switch":
+                                continue
+                            ce = unval(ev.operand(f.term(s_)["on"], (s_, "T")))
+                            if ce[0] == "sym" and ce[2] == (lp,):
+                                for tgt, val in f.succ(s_):
+                                    truth = ([vv for vv, _ in f.term(s_)["targets"]] == [0]) if val == "otherwise" else bool(val)
+                                    if truth == v and len(f.pred(tgt)) == 1 and (tgt == d_[0] or f.dominates(tgt, d_[0])):
+                                        behind = True
+                        # ... and P is not reassigned between that test and the assignment (within one iteration)
+                        for pd in f.defs(lp):
+                            if pd[0] in body and d_[0] in f.reach_from([pd[0]], blocked={h}) and pd[0] != d_[0]:
+                                behind = False
+                        if not behind:
+                            ok = False
+                if not ok:
+                    continue
+                # --- entry
+                for p in entries:
+                    proved_p = False
+                    for paths in self._paths_to(p):
+                        allok = True
+                        for path in paths:
+                            ev.path = path
+                            try:
+                                Lp = Lin(ev)
+                                xe = ev.local(lx, (p, "T"))
+                                if unval(xe)[0] == "sym" and unval(xe)[2] == (lx,):
+                                    allok = False       # X's value on this path is not determined inside the region
+                                    break
+                                facts_p = self.path_facts(path, p, Lp)
+                                if guard is not None:
+                                    pe = ev.local(guard[0], (p, "T")) if guard[0] in ev.multi else ev.local(guard[0], (p, "T"))
+                                    cb = const_bool(pe)
+                                    if cb is not None:
+                                        if cb != guard[1]:
+                                            continue        # the guard is false on this path: nothing to show
+                                    else:
+                                        fs = []
+                                        self._cond_facts(pe, guard[1], Lp, fs)
+                                        if not fs:
+                                            allok = False
+                                            break
+                                        facts_p = facts_p + [(l_, r_, p) for l_, r_ in fs]
+                                goal_p = subst(I, Lp.lin(xe))
+                                self._merge(Lp, L)
+                                if not self.prove(goal_p, facts_p, Lp):
+                                    allok = False
+                                    break
+                            finally:
+                                ev.path = None
+                        if allok:
+                            proved_p = True
+                            break
+                    if not proved_p:
+                        ok = False
+                        break
+                if not ok or not entries:
+                    continue
+                # --- preservation
+                for d_ in xdefs:
+                    Ld = Lin(ev)
+                    if d_[1] == "T":
+                        ok = False
+                        break
+                    new = ev.rvalue(f.stmts(d_[0])[d_[1]]["rv"], d_)
+                    new_lin = Ld.lin(new)
+                    if any("d" in st and st["d"]["l"] == lx for st in f.stmts(d_[0])[:d_[1]]):
+                        ok = False
+                        break
+                    facts_d = self.facts_before(d_[0], Ld)
+                    self._merge(Ld, L)
+                    if not self.prove(subst(I, new_lin), facts_d + [(I, ">=0", h)], Ld):
+                        ok = False
+                        break
+                if ok:
+                    return f"{show_lin(I)} >= 0 is a loop invariant" + (f" while {f.local_name(guard[0]) or 'the guard'} == {str(guard[1]).lower()}" if guard else "")
+        return None
 
     def prove_on_paths(self, b, goal, dom_facts, L, cap=400, goal_index=None):
         """path-sensitive attempt: for some dominator D of the site with an acyclic region D..site, the goal holds on
         every path D -> site under the conditions taken along that path (or the path is contradictory)"""
         f = self.f
         doms = [x for x in f.dominators(b) if x != b]
+        # a site inside a loop is reached once per iteration: "every path from D" covers every arrival only when D lies in the
+        # same (innermost) loop, so that the region is one iteration and loop-carried locals stay symbolic
+        inner = [body for h_, body in f.loops().items() if b in body]
+        if inner:
+            body_ = min(inner, key=len)
+            doms = [x for x in doms if x in body_]
         for D in doms[:14]:
             region = self._between(D, b)
             # acyclic?
